@@ -75,9 +75,9 @@ class Job:
         self.wall_s = 0.0; self.detail = ''; self.canary_ok = None; self.sample = None
 
 
-def sh(cmd, timeout=None, cwd=None, mem=True, stdout_path=None):
+def sh(cmd, timeout=None, cwd=None, mem=True, stdout_path=None, mem_kb=None):
     """run a command under ulimit -v; returns (rc, out, err); rc 124 on timeout"""
-    pre = 'ulimit -v %d; ' % MEM_KB if mem else ''
+    pre = 'ulimit -v %d; ' % max(MEM_KB, mem_kb or 0) if mem else ''
     q = ' '.join("'" + c.replace("'", "'\\''") + "'" for c in cmd)
     full = pre + 'exec ' + q
     try:
@@ -328,13 +328,15 @@ class Runner:
             job._cmd = ' '.join(cmd)
             with MEM_BUDGET.take(job.mem_gb):
                 ts = time.time()
-                rc, o, e = sh(cmd, timeout=job.timeout, stdout_path=outp)
+                rc, o, e = sh(cmd, timeout=job.timeout, stdout_path=outp, mem_kb=int(job.mem_gb * 1.4 * 1048576))
                 job.solver_s = time.time() - ts
             if rc == 124: raise Undecided('job %s: cbmc timeout after %ss (back end %s)' % (job.name, job.timeout, job.backend))
             results, err, msgs = parse_cbmc_json(outp)
             if results is None:
                 raise Undecided('job %s: cbmc gave no result (rc=%s): %s %s' % (job.name, rc, err or '', ' | '.join(msgs[-5:]) + e[-500:]))
             job._msgs = msgs
+            if any(r.get('status') == 'ERROR' for r in results):
+                raise Undecided('job %s: the solver gave up (%s): no verdict' % (job.name, ' | '.join(mt for mt in msgs if mt.startswith('ERROR'))[:300] or 'status ERROR'))
             for mtxt in msgs:
                 if 'ignoring' in mtxt and ('forall' in mtxt or 'exists' in mtxt or 'quantif' in mtxt):
                     raise Undecided('job %s: back end ignored a quantifier: %s' % (job.name, mtxt))
